@@ -272,6 +272,42 @@ func vfC03(c *hx.Ctx) {
 							Delay: 10, HorizonMs: pauseMs + 120000 + 200000, PauseAfter: after, PauseMs: pauseMs, CtrlDropN: n}
 						cf.Writes[0] = []int{16, 16, 16, 16, 16, 16, 16, 16}
 						grid = append(grid, vfNamedCfg{fmt.Sprintf("%s/rcv_wnd=%d/nc=%d/pause=%dms after %d segs", mode, w, nc, pauseMs, after), cf})
+						if pauseMs >= 5000 {
+							cf.OutageAfterResumeMs = 1000
+							cf.CtrlDropN = 2
+							grid = append(grid, vfNamedCfg{fmt.Sprintf("%s/rcv_wnd=%d/nc=%d/pause=%dms after %d segs/1s-outage-at-resume", mode, w, nc, pauseMs, after), cf})
+						}
+					}
+				}
+			}
+		}
+	}
+	// both directions blocked: both readers stall, both windows reach zero, both ends probe each other (their probe timers
+	// are armed by the same exchange and stay in step)
+	for _, mode := range []string{"session", "update"} {
+		for _, w := range []int{1, 2} {
+			for _, pauseMs := range []uint32{700, 5000, 130000} {
+				for _, after := range []int{0, 1, 2} {
+					for _, off := range []uint32{0, 30, 1000} {
+						cf := vfSimCfg{Mode: mode, Stream: true, SndWnd: [2]int{32, 32}, RcvWnd: [2]int{w, w}, Mtu: 40, NoDelay: [4]int{0, 100, 0, 1}, OffsetB: off % 100,
+							Delay: 10, HorizonMs: pauseMs + 120000 + 400000, PauseAfter: after, PauseBoth: off != 1000, NeverReadA: off == 1000, PauseMs: pauseMs, CtrlDropN: n}
+						cf.Writes[0] = []int{16, 16, 16, 16, 16, 16, 16, 16}
+						cf.Writes[1] = []int{16, 16, 16, 16, 16, 16, 16, 16}
+						grid = append(grid, vfNamedCfg{fmt.Sprintf("both-directions/%s/rcv_wnd=%d/pause=%dms after %d segs/flush-offset=%d", mode, w, pauseMs, after, off), cf})
+						cf.OutageAfterResumeMs = 1000
+						cf.CtrlDropN = 2
+						grid = append(grid, vfNamedCfg{fmt.Sprintf("both-directions/%s/rcv_wnd=%d/pause=%dms after %d segs/flush-offset=%d/1s-outage-at-resume", mode, w, pauseMs, after, off), cf})
+						// the peer's first burst just fills our window and is acknowledged; the rest of its data is produced later and
+						// stays queued behind the closed window (nothing in flight whose retransmissions could carry a window update)
+						cf.WriteTimes[1] = nil
+						for i := range cf.Writes[1] {
+							t := uint32(0)
+							if i >= w {
+								t = 400
+							}
+							cf.WriteTimes[1] = append(cf.WriteTimes[1], t)
+						}
+						grid = append(grid, vfNamedCfg{fmt.Sprintf("both-directions/%s/rcv_wnd=%d/pause=%dms after %d segs/flush-offset=%d/1s-outage-at-resume/peer-data-queued-not-in-flight", mode, w, pauseMs, after, off), cf})
 					}
 				}
 			}
@@ -285,6 +321,8 @@ func vfC03(c *hx.Ctx) {
 		p["pause_ms"], p["pause_after_segments"], p["lossy_control_datagrams"] = g.cfg.PauseMs, g.cfg.PauseAfter, n
 		c.Explore(g.name, p, 0, vfCoreRun(g.cfg, "C01:", "C02:", "C04:"))
 	}
+	// the probing mechanism itself, against an arbitrary peer: every state within the depth bound
+	vfAdversarialBFS(c, "C03:", 4, false)
 }
 
 // C04 (part 1): window discipline on every step of honest traffic, symmetric and asymmetric windows.
@@ -346,12 +384,13 @@ func vfC18clean(c *hx.Ctx) {
 	hx.NoCache = true
 	var cfgs []vfNamedCfg
 	for _, mode := range []string{"session", "update"} {
-		for _, nd := range [][4]int{{0, 100, 0, 0}, {0, 40, 2, 1}, {0, 20, 2, 0}, {1, 10, 2, 1}, {1, 20, 0, 0}, {1, 10, 1, 0}, {0, 10, 0, 1}} {
+		for _, nd := range [][4]int{{0, 100, 0, 0}, {0, 40, 2, 1}, {0, 20, 2, 0}, {1, 10, 2, 1}, {1, 20, 0, 0}, {1, 10, 1, 0}, {0, 10, 0, 1},
+			{1, 11, 2, 1}, {1, 12, 2, 0}, {1, 13, 1, 1}, {0, 11, 2, 1}, {0, 13, 0, 0}, {0, 33, 2, 1}, {1, 17, 2, 1}} {
 			minrto := uint32(IKCP_RTO_MIN)
 			if nd[0] != 0 {
 				minrto = IKCP_RTO_NDL
 			}
-			for _, D := range []uint32{0, 1, 2, 5, 10, 14, 20, 40} {
+			for _, D := range []uint32{0, 1, 2, 3, 5, 7, 10, 14, 20, 40} {
 				// the peer acknowledges on its own flush interval (same setting at both ends)
 				if 2*D+uint32(nd[1]) >= minrto {
 					continue
@@ -359,21 +398,96 @@ func vfC18clean(c *hx.Ctx) {
 				for _, wnd := range [][2]int{{1, 32}, {4, 32}, {32, 32}, {64, 64}, {8, 8}} { // {snd_wnd, peer rcv_wnd}: rcv >= min(snd, 32)
 					for _, stream := range []bool{true, false} {
 						for pi, nseg := range []int{1, 3, 3 * wnd[0]} {
-							if nseg > 100 {
-								nseg = 100
+							for variant := 0; variant < 4; variant++ {
+								if nseg > 100 {
+									nseg = 100
+								}
+								var w []int
+								for i := 0; i < nseg; i++ {
+									w = append(w, []int{16, 1, 15, 17, 48}[(i+pi)%5])
+								}
+								cf := vfSimCfg{Mode: mode, Stream: stream, SndWnd: [2]int{wnd[0], wnd[0]}, RcvWnd: [2]int{wnd[1], wnd[1]}, Mtu: 40, NoDelay: nd,
+									Delay: D, HorizonMs: 600000, PauseAfter: -1, CleanPath: true, AckNoDelay: variant&1 != 0, WriteDelay: variant&2 != 0}
+								cf.Writes[0] = w
+								cf.Writes[1] = w[:min(len(w), 2)]
+								if variant&2 != 0 {
+									cf.WriteGapMs = 7 // application writes spread over time (not aligned with the flush interval)
+								}
+								cfgs = append(cfgs, vfNamedCfg{fmt.Sprintf("%s/nodelay=%v/D=%d/snd=%d,rcv=%d/stream=%v/%dwrites/acknodelay=%v/writedelay=%v", mode, nd, D, wnd[0], wnd[1], stream, len(w), cf.AckNoDelay, cf.WriteDelay), cf})
 							}
-							var w []int
-							for i := 0; i < nseg; i++ {
-								w = append(w, []int{16, 1, 15, 17, 48}[(i+pi)%5])
+						}
+					}
+				}
+			}
+		}
+	}
+	// two independent flush clocks (different intervals, phase offsets), applications writing at their own pace in both
+	// directions: many relative alignments of "data queued", "acknowledgement-only flush", "full flush" and "ack arrives"
+	for _, mode := range []string{"session", "update"} {
+		for _, iv := range [][3]int{{1, 12, 19}, {1, 11, 19}, {1, 13, 17}, {1, 10, 19}, {1, 12, 12}, {0, 30, 83}, {0, 40, 83}, {0, 33, 61}} { // nodelay, interval A, interval B
+			minrto := uint32(IKCP_RTO_MIN)
+			if iv[0] != 0 {
+				minrto = IKCP_RTO_NDL
+			}
+			for _, D := range []uint32{1, 2, 4, 5} {
+				if 2*D+uint32(max(iv[1], iv[2])) >= minrto {
+					continue
+				}
+				for _, off := range []uint32{0, 3, 7} {
+					for _, gaps := range [][2]uint32{{7, 5}, {5, 9}, {13, 4}} {
+						for variant := 0; variant < 4; variant++ {
+							for _, nc := range []int{0, 1} {
+								cf := vfSimCfg{Mode: mode, Stream: true, SndWnd: [2]int{32, 32}, RcvWnd: [2]int{32, 32}, Mtu: 40, NoDelay: [4]int{iv[0], iv[1], 2, nc}, IntervalB: iv[2], OffsetB: off,
+									Delay: D, HorizonMs: 600000, PauseAfter: -1, CleanPath: true, AckNoDelay: variant&1 != 0, WriteDelay: variant&2 != 0, WriteGapMs: gaps[0], WriteGapMsB: gaps[1]}
+								for i := 0; i < 60; i++ {
+									cf.Writes[0] = append(cf.Writes[0], 10)
+									cf.Writes[1] = append(cf.Writes[1], 12)
+								}
+								cfgs = append(cfgs, vfNamedCfg{fmt.Sprintf("twoclocks/%s/nodelay=%d/intervals=%d,%d/offset=%d/D=%d/gaps=%v/acknodelay=%v/writedelay=%v/nc=%d", mode, iv[0], iv[1], iv[2], off, D, gaps, cf.AckNoDelay, cf.WriteDelay, nc), cf})
 							}
-							cf := vfSimCfg{Mode: mode, Stream: stream, SndWnd: [2]int{wnd[0], wnd[0]}, RcvWnd: [2]int{wnd[1], wnd[1]}, Mtu: 40, NoDelay: nd,
-								Delay: D, HorizonMs: 600000, PauseAfter: -1, CleanPath: true}
-							if !stream && mode == "update" {
-								// fragments <= rcv_wnd holds: at most 3 fragments, rcv_wnd >= 8
+						}
+					}
+				}
+			}
+		}
+	}
+	// a trained estimator, then one outlier: end A writes at a period commensurate with both flush clocks (identical RTT samples
+	// bring the RTO down to its minimum), then one extra write right after one of its flushes, while one data packet of end B
+	// arrives at EVERY offset of the following flush interval (an acknowledgement-only flush while data is queued), for every
+	// phase between the two flush clocks
+	for _, mode := range []string{"update", "session"} {
+		for _, nd := range [][4]uint32{{1, 10, 19, 4}, {1, 12, 19, 4}, {1, 12, 20, 4}, {1, 13, 19, 4}, {0, 30, 83, 5}, {0, 40, 83, 5}} { // nodelay, interval A, interval B, D
+			ia, ib, D := nd[1], nd[2], nd[3]
+			pstep, dstep := uint32(1), uint32(1)
+			if nd[0] == 0 {
+				pstep, dstep = 4, 3
+			}
+			if c.Quick() {
+				pstep *= 2
+			}
+			for phase := uint32(0); phase < ib; phase += pstep {
+				for j := uint32(0); j < 3; j++ {
+					for d := uint32(0); d < ia; d += dstep {
+						for v := 0; v < 3; v++ {
+							and := v != 2
+							if !and && (d+phase)%3 != 0 {
+								continue
 							}
-							cf.Writes[0] = w
-							cf.Writes[1] = w[:min(len(w), 2)]
-							cfgs = append(cfgs, vfNamedCfg{fmt.Sprintf("%s/nodelay=%v/D=%d/snd=%d,rcv=%d/stream=%v/%dwrites", mode, nd, D, wnd[0], wnd[1], stream, len(w)), cf})
+							if v == 1 && mode == "update" {
+								continue // a raw-core user cannot force a flush
+							}
+							cf := vfSimCfg{Mode: mode, Stream: false, SndWnd: [2]int{128, 128}, RcvWnd: [2]int{128, 128}, NoDelay: [4]int{int(nd[0]), int(ia), 0, 1}, IntervalB: int(ib), OffsetB: phase,
+								Delay: D, HorizonMs: 600000, PauseAfter: -1, CleanPath: true, AckNoDelay: and, AckNoDelayOnlyA: d%2 == 0, WriteDelay: true, NoWriteDelayB: v == 1}
+							for i := uint32(0); i < 6; i++ {
+								cf.Writes[0] = append(cf.Writes[0], 100)
+								cf.WriteTimes[0] = append(cf.WriteTimes[0], i*ia*ib+1)
+							}
+							ex := ia*ib*6 + j*ia + 1
+							cf.Writes[0] = append(cf.Writes[0], 100)
+							cf.WriteTimes[0] = append(cf.WriteTimes[0], ex)
+							cf.Writes[1] = []int{10}
+							cf.WriteTimes[1] = []uint32{ex - D + d}
+							cfgs = append(cfgs, vfNamedCfg{fmt.Sprintf("outlier/%s/nodelay=%d/intervals=%d,%d/phase=%d/extra-write-after-flush-%d/peer-data-written=+%d/acknodelay=%v/peer-flushes-at-once=%v", mode, nd[0], ia, ib, phase, j, d, and, v == 1), cf})
 						}
 					}
 				}
